@@ -379,6 +379,14 @@ func checkCase(c *Case, count bool) error {
 	release := make(chan struct{})
 	writerDone := make(chan struct{})
 	var snap *fox.Txn // a read-only snapshot of the parked write transaction, read by other goroutines while it stays parked
+	// views pinned to the tree as it is now, then a commit that makes the live tree bigger in every dimension (more
+	// parameters, deeper): reads through the old views, whose tree never served anything, run while the writer is parked
+	old, oldIt := f.Txn(false), f.Iter()
+	defer old.Abort()
+	if c.Empty == "" { // the cases about an empty committed tree keep it empty
+		_, _ = f.Handle("GET", "/grown/{a}/{b}/{c}/{d}/{e}/{f}/{g}/{h}/{i}/{j}/{k}/{l}/x/y/z/w/v", h)
+		_, _ = f.Handle("GET", "/grown/{a}/{b}/{c}/{d}/{e}/{f}/{g}/{h}/{i}/{j}/{k}/{l}/x/y/z/w/u/t", h)
+	}
 	go func() {
 		defer close(writerDone)
 		body := func(txn *fox.Txn) {
@@ -446,6 +454,26 @@ func checkCase(c *Case, count bool) error {
 			read{"snapshot of the parked transaction: Snapshot", func() { snap.Snapshot().Has("GET", "/static") }},
 		)
 	}
+	oreq := httptest.NewRequest("GET", "http://"+host+"/r/1/x", nil)
+	rs = append(rs,
+		read{"read-only transaction opened before the tree grew: Reverse/Has/Len", func() {
+			old.Reverse("GET", host, "/r/1/x")
+			old.Reverse("GET", "", "/static")
+			old.Has("GET", "/static")
+			old.Len()
+		}},
+		read{"read-only transaction opened before the tree grew: Lookup", func() {
+			if _, cc, _ := old.Lookup(rt.Writer(httptest.NewRecorder(), oreq), oreq); cc != nil {
+				cc.Close()
+			}
+		}},
+		read{"iterator taken before the tree grew: Reverse/All", func() {
+			for range oldIt.Reverse(oldIt.Methods(), host, "/r/1/x") {
+			}
+			for range oldIt.All() {
+			}
+		}},
+	)
 	var done []chan struct{}
 	var names []string
 	for _, r := range rs {
